@@ -7,6 +7,7 @@ import TensoraVerif.Model.ParserWire
 import TensoraVerif.Model.ApiWire
 import TensoraVerif.Model.CPrint
 import TensoraVerif.Model.Ownership
+import TensoraVerif.Model.GenerateIR
 import TensoraVerif.Lemmas.PeepholeExact
 open TV
 
@@ -160,6 +161,28 @@ def ownOp : Sexp → Option Own.Op
   | .list [.atom "gc"] => some .gc
   | _ => none
 
+def ratToFloat (r : Rat) : Float := Float.ofInt r.num / Float.ofNat r.den
+
+def kindOf : Sexp → Option Gen.Kind
+  | .atom "evaluate" => some .evaluate
+  | .atom "assemble" => some .assemble
+  | .atom "compute" => some .compute
+  | _ => none
+
+/-- the whole compiler in Lean: desugar → best graph → lower each kind → (optionally) peephole -/
+def compileModule (a : Alg.Assign) (fs : Graph.Formats) (kinds : List Gen.Kind) (cap : Option Int) (opt : Bool) : Sexp :=
+  let d := Alg.desugar a
+  match Graph.bestAlgorithm d fs with
+  | .diagonal => Sexp.mk "diagonal" []
+  | .noKernel => Sexp.mk "nokernel" []
+  | .graph g =>
+    match kinds.mapM (fun k => Gen.generateIr ratToFloat cap d fs g k) with
+    | .error .notImplemented => Sexp.mk "internal" [.atom "NotImplementedError"]
+    | .error .runtime => Sexp.mk "internal" [.atom "RuntimeError"]
+    | .ok funcs =>
+      let m : IR.Module Float := ⟨funcs⟩
+      Sexp.mk "ok" [IR.Wire.moduleToSexp (if opt then IR.peepM m else m)]
+
 def handle (cmd : String) (args : List Sexp) : Sexp :=
   match cmd, args with
   | "PING", _ => .atom "pong"
@@ -275,6 +298,11 @@ def handle (cmd : String) (args : List Sexp) : Sexp :=
     match Parse.Wire.fmtOf f with
     | some f => .str f.deparse
     | none => Sexp.mk "bad-request" [.str "unknown-constructor"]
+  | "COMPILE", [a, fs, .list kinds, cap, opt] =>
+    match Alg.Wire.assignOf a, Graph.Wire.formatsOf fs, kinds.mapM kindOf, opt.toBool? with
+    | some a, some fs, some kinds, some opt =>
+      compileModule a fs kinds (match cap with | .atom "default" => none | c => c.toInt?) opt
+    | _, _, _, _ => Sexp.mk "bad-request" [.str "compile-args"]
   | "GRAPH", [a, fs] =>
     match Alg.Wire.assignOf a, Graph.Wire.formatsOf fs with
     | some a, some fs =>
